@@ -5,9 +5,9 @@ cd "$(dirname "$0")"
 mkdir -p gen _build
 ( cd gen && coqc -Q ../../coq GM ../../coq/extract/Extract.v >/dev/null )
 stamp=_build/stamp
-new=$(cat gen/model.ml gen/model.mli glue.ml dispatch2.ml modelrun.ml | md5sum)
+new=$(cat gen/model.ml gen/model.mli glue.ml dispatch2.ml dispatch3.ml modelrun.ml | md5sum)
 if [ -f "$stamp" ] && [ -x _build/modelrun ] && [ "$(cat $stamp)" = "$new" ]; then exit 0; fi
-cp gen/model.ml gen/model.mli glue.ml dispatch2.ml modelrun.ml _build/
-( cd _build && ocamlfind ocamlopt -O2 -w -a -package str model.mli model.ml glue.ml dispatch2.ml modelrun.ml -o modelrun 2>/dev/null \
-  || ocamlfind ocamlopt -w -a -package str model.mli model.ml glue.ml dispatch2.ml modelrun.ml -o modelrun )
+cp gen/model.ml gen/model.mli glue.ml dispatch2.ml dispatch3.ml modelrun.ml _build/
+( cd _build && ocamlfind ocamlopt -O2 -w -a -package str model.mli model.ml glue.ml dispatch2.ml dispatch3.ml modelrun.ml -o modelrun 2>/dev/null \
+  || ocamlfind ocamlopt -w -a -package str model.mli model.ml glue.ml dispatch2.ml dispatch3.ml modelrun.ml -o modelrun )
 echo "$new" > $stamp
